@@ -38,7 +38,7 @@ def rule(tier):
 def floors(tier):
     return {"evaluations": 350 if tier == "quick" else 3000, "distinct": 350 if tier == "quick" else 3000,
             "counters": {"fixture_cases": 200, "partial_variants": 150, "api_documents": 150, "tables_compared": 800, "row_heights_compared": 10000, "col_widths_compared": 5000,
-                         "documents_with_borders": 40, "untouched_variants": 90, "later_cycles": 300, "captions_set": 30, "heights_set": 30, "widths_set": 30, "merges_full_height_set": 8, "merges_full_width_set": 8, "api_on_source_documents": 40}}
+                         "documents_with_borders": 40, "untouched_variants": 90, "later_cycles": 300, "captions_set": 30, "heights_set": 30, "widths_set": 30, "merges_full_height_set": 8, "merges_full_width_set": 8, "api_on_source_documents": 60}}
 
 
 def plan(tier, seed):
@@ -52,7 +52,7 @@ def plan(tier, seed):
     n = 240 if tier == "quick" else 5000
     k = 16 if tier == "quick" else 48
     for i in range(k):
-        specs.append({"part": "api", "n": n // k, "stream": i, "cycles": cycles, "tier": tier, "seed": seed})
+        specs.append({"part": "api", "n": n // k, "stream": i, "k": k, "cycles": cycles, "tier": tier, "seed": seed})
     specs.sort(key=lambda s: -os.path.getsize(s["path"]) if s.get("path") and os.path.isfile(s["path"]) else 0)
     return specs
 
@@ -353,14 +353,19 @@ def api_case(case, rec):
             rec.count("api_values_checked")
             if got != want:
                 rec.violation("api_value_not_reported", {"attr": key[1]}, {"asked": repr(want)[:100], "reported": repr(got)[:100]}, case=case)
+    except Exception as e:  # noqa: BLE001 - what the setters accept on this document is not C16's business
+        rec.build_failure(f"api document: {type(e).__name__}: {str(e)[:60]}")
+        return
+    try:
         import re as _re
         pivots = set()
         for _cat, msg in docs.save(doc, src):
             m = _re.match(r"^Not modifying pivot table '(?P<table>.*)'$", msg)
             if m:
                 pivots.add(m["table"])
-    except Exception as e:  # noqa: BLE001
-        rec.build_failure(f"api document: {type(e).__name__}: {str(e)[:60]}")
+    except Exception as e:  # noqa: BLE001 - but a document whose geometry and labels were set through the API must be savable
+        rec.violation("save_raised", {"origin": "api-on-source-document" if case.get("fixture") else "api", "exc": type(e).__name__, "variant": "first-save"},
+                      {"msg": str(e)[:200], "fixture": os.path.basename(case.get("fixture") or "")}, case=case)
         return
     try:
         from numbers_parser import Document
@@ -402,9 +407,14 @@ def run_api(spec, rec):
     rng = random.Random(f"C16-api-{spec['seed']}-{spec['stream']}")
     from vf import corpus
     small = sorted(p for p in corpus.readable_fixtures()[0] if os.path.isfile(p) and os.path.getsize(p) < 400_000)
+    # every small source document gets its turn (round robin over the streams), the rest of the cases are API-built or a random one
+    k_streams = spec.get("k", 16)
+    mine = small[spec["stream"]::k_streams]
     for i in range(spec["n"]):
         case = {"part": "api", "rseed": rng.randrange(1 << 40), "queried": rng.choice([False, True, "partial"]), "cycles": spec["cycles"]}
-        if rng.random() < .3 and small:
+        if i < len(mine):
+            case["fixture"] = mine[i]
+        elif rng.random() < .2 and small:
             case["fixture"] = rng.choice(small)
         api_case(case, rec)
         if i == 0:
